@@ -3,5 +3,10 @@
 
 package store
 
+import "os"
+
 // verifPoint is a no-op unless the package is built with -tags verif.
 func verifPoint(point string, args ...interface{}) {}
+
+// verifWrapWriter is the identity unless the package is built with -tags verif.
+func verifWrapWriter(fd *os.File, path string) *os.File { return fd }
